@@ -239,6 +239,17 @@ def to_f64(v):
     return float(v)
 
 
+def to_f32(v):
+    """float32 storage is lossy for anything but small integers: modelled as a definite relative perturbation of 2^-25
+    (CrossHair's floats are reals; an exact float32 rounding is not expressible).  A counterexample that depends on this
+    is only reported after it reproduces on the real library."""
+    if isinstance(v, NPScalar):
+        v = v.v
+    if isinstance(v, int) and not isinstance(v, bool):
+        return float(v) if -(1 << 24) <= v <= (1 << 24) else float(v) * (1.0 + 2.0 ** -25)
+    return v * (1.0 + 2.0 ** -25)
+
+
 def _array(data, dtype=None):
     if isinstance(data, SArr): return data
     if isinstance(data, NPScalar): 
@@ -252,7 +263,7 @@ def _array(data, dtype=None):
         elif "i" in kinds and any(isinstance(x, NPScalar) and not x.signed and x.bits==64 for x in data): dtype=float64
         elif "i" in kinds: dtype=int64
         else: dtype=uint64
-    if dtype.isfloat: vals=[to_f64(v) for v in vals]
+    if dtype.isfloat: vals=[(to_f32(v) if dtype.bits == 32 else to_f64(v)) for v in vals]
     return SArr((len(vals),), dtype, vals)
 def _copy(a):
     if isinstance(a, SArr):
